@@ -1249,12 +1249,19 @@ func writeFile(dst string, b []byte) error {
 }
 
 // hookChanSrc: cooperative channel operations (trees without go statements: every other party is a task).
+// Site -4 ("Unbuffered"): on an unbuffered channel a non-blocking send succeeds only while a receiver is parked in
+// the runtime and vice versa, so two polling ends would never meet although they always do in production (red team
+// round 5, candidate 1: a false O9 alarm).  The harness ends a statement-granular worker there with exit 5 and the
+// coordinator repeats the batch operation-granular, where nobody waits for a descheduled party.
 const hookChanSrc = `// CoopSendTo(ch)(v) is ch <- v for a task of the simulator: while the send cannot proceed another task runs.
 func CoopSendTo[T any](ch chan<- T) func(T) {
 	return func(v T) {
 		if Hook == nil {
 			ch <- v
 			return
+		}
+		if cap(ch) == 0 && ch != nil {
+			Hook(-4) // a rendezvous: two polling ends never meet (see Unbuffered)
 		}
 		for {
 			select {
@@ -1272,6 +1279,9 @@ func CoopRecv[T any](ch <-chan T) T {
 	if Hook == nil {
 		return <-ch
 	}
+	if cap(ch) == 0 && ch != nil {
+		Hook(-4)
+	}
 	for {
 		select {
 		case v := <-ch:
@@ -1287,6 +1297,9 @@ func CoopRecv2[T any](ch <-chan T) (T, bool) {
 	if Hook == nil {
 		v, ok := <-ch
 		return v, ok
+	}
+	if cap(ch) == 0 && ch != nil {
+		Hook(-4)
 	}
 	for {
 		select {
